@@ -230,6 +230,9 @@ class World:
         self.sig_now = None
         self.reports = []
         self.records = {}
+        self.handed: Dict[int, List[Tuple[int, str]]] = {}
+        self.handed_now: List[Tuple[int, str]] = []
+        self.handed_depth = 0
 
 
 @contextlib.contextmanager
@@ -1339,7 +1342,7 @@ FRAGMENTS = {
                 "@note: a", "@unknownfield: z", "@param x y", "  - item", " - item", "1. one", "  2. two", ">>> print(1)",
                 "x::", "    literal", "Heading\n=======", "Sub\n---", "Short\n==========", "E{lb}", "E{zz}", "S{alpha}",
                 "S{nope}", "M{x^2}", "\t", "G{classtree}", "X{idx}", "L{}", "U{}", "@param x:\n   - a\n  - b", "@see: L{",
-                "@since", "@", "@:", "@param a: sep \x0c here", "@note: a \ufffe b", "@return: x \x0c", "    @param deep: x", "C{L{I{B{x}}}}", "::"],
+                "@since", "@", "@:", "the record ends with }.", "prose C{x} and more prose } tail", "value; } trailing", "@param a: sep \x0c here", "@note: a \ufffe b", "@return: x \x0c", "    @param deep: x", "C{L{I{B{x}}}}", "::"],
     "restructuredtext": ["``x", "`x", "`x`_", "*x", "**x", "|x|", "x_", ".. foo::", ".. note::", ".. image::", ".. code:: python",
                          ":param x: y", ":type x: `int", ":returns:", ":rtype: str", ":ivar x:", ":raises E: when", "+--+\n|a |\n+--+",
                          "+--+\n|a", "====\nT\n====", "T\n=", "T\n---\n", "* item", "  indented", "::", "[1]_", ".. [1] note",
@@ -1348,7 +1351,7 @@ FRAGMENTS = {
                          ".. unicode:: 0x", ".. versionadded:: 1", ".. deprecated::", ":py:class:`a.b`", ":obj:`~x`", "`x <http://a>`_",
                          "`x <y`_", "__ x", "anonymous__", ".. __: http://x", ".. table::\n\n   == ==\n   a  b", "A\n=\nB\n-\nC\n=\nD\n^\nE\n-",
                          ".. code-block:: python\n   :linenos:\n\n   x", ".. math::\n\n   \\frac", ">>> 1+", ".. |a| image:: x", "|a|",
-                         ".. date::", ":Author: me", ".. default-role:: literal", ".. figure:: d.png\n\n   .. default-role:: literal",
+                         ".. date::", ":Author: me", "Notes\n==", "3. three\n4. four", ".. _unused:", "Dup\n===\n\nx\n\nDup\n===", ".. default-role:: literal", ".. figure:: d.png\n\n   .. default-role:: literal",
                          ".. role:: custom(emphasis)", ":custom:`x`", ":param a: sep \x0c here", ":note: a \ufffe b", ":param:", ":unknown field: v", "\\", "x\\", ".. admonition::", ".. figure:: a\n   :scale: x"],
     "google": ["Args:", "    x (int): y", "  x: y", "Returns:", "    str: d", "Raises:", "    ValueError", "Attributes:", "Example::",
                "Note:", "Yields:", "Keyword Args:", "Args:\n x (list[int", "Todo:", "    * x", "Args:\n    *args: a\n    **kw: b",
@@ -1541,6 +1544,14 @@ REGRESSION_DOCS = [
     "Split.\n\nArgs:\n    a: The separator, a form feed ('\x0c') by default.",
     "Summary.\n\n" + "x" * 10001,
     "A diagram.\n\n.. figure:: diagram.png\n\n   .. default-role:: literal\n",
+    # a stray closing brace in prose (seeded C08-r5-1: downgraded to a warning, the text before it is dropped)
+    "Frame format.\n\nThe record starts with C{STX} and the payload ends with }. Trailing words stay.",
+    "A half quoted snippet: return value; } and then more prose follows here.",
+    # docstrings whose ONLY problem docutils files at INFO level (seeded C08-r5-2: the reader ignored those)
+    "Notes\n==\n\nBody text under a too short underline.",
+    "Usage\n=====\n\nfirst\n\nUsage\n=====\n\nsecond",
+    "Steps:\n\n3. three\n4. four",
+    "Text.\n\n.. _unused-target:\n\nMore text.",
     # SEVERE docutils messages (seeded C08-r4-2: a reader that raises ParseError for them without storing it)
     "Intro.\n\n.. include:: /nonexistent-c08-file\n\nOutro.",
     "Intro.\n\n.. csv-table::\n   :file: /nonexistent-c08-file\n",
@@ -1585,8 +1596,21 @@ def record_patches(w: World):
     real_get = epydoc2stan.get_parser_by_name
     real_pt = epydoc2stan.processtypes
 
+    from pydoctor.epydoc.markup import restructuredtext as R
+    real_new_document = R._EpydocReader.new_document
+
+    def new_document(self):
+        # a second observer next to pydoctor's own: every system message docutils hands out, whatever its level
+        doc = real_new_document(self)
+        doc.reporter.attach_observer(lambda m: w.handed_now.append((m["level"], "".join(c.astext() for c in m))))
+        return doc
+
     def wrap(p, obj):
         def rec(doc, errs):
+            outer = getattr(w, "handed_depth", 0) == 0
+            if outer:
+                w.handed_now = []
+            w.handed_depth = getattr(w, "handed_depth", 0) + 1
             try:
                 pd = p(doc, errs)
             except Hang:
@@ -1594,6 +1618,10 @@ def record_patches(w: World):
             except BaseException as e:
                 w.records[w.oid(obj)] = ("raise", e, list(errs))
                 raise
+            finally:
+                w.handed_depth -= 1
+                if outer:
+                    w.handed[w.oid(obj)] = list(w.handed_now)
             w.records[w.oid(obj)] = ("ret", pd, list(errs))
             return pd
         rec._c08_obj = obj
@@ -1606,11 +1634,13 @@ def record_patches(w: World):
         return wrap(real_pt(p), p._c08_obj)
     epydoc2stan.get_parser_by_name = get_parser
     epydoc2stan.processtypes = processtypes
+    R._EpydocReader.new_document = new_document
     try:
         yield
     finally:
         epydoc2stan.get_parser_by_name = real_get
         epydoc2stan.processtypes = real_pt
+        R._EpydocReader.new_document = real_new_document
 
 
 REAL_ORDERS = ["edst", "sdte", "tsde"]   # pydoctor itself asks for summaries (listings) before bodies
@@ -1838,6 +1868,17 @@ def run_real_extras(w: World, x: int, trace, limit: float) -> None:
     trace.extend(extra)
 
 
+def epytext_words_lost(doc: str, rendered: str) -> List[str]:
+    """words (3+ letters/digits) of an epytext source that the rendered page does not show; markup that legitimately
+    does not show up is taken out of the source first: tag letters, link targets, symbol / escape names, field tags"""
+    src = re.sub(r"[SE]\{[^{}]*\}", " ", doc)
+    src = re.sub(r"<[^<>{}]*>(?=\})", " ", src)
+    src = re.sub(r"\b[A-Z]\{", " {", src)
+    src = re.sub(r"(?m)^\s*@\w+", " ", src)
+    have = set(re.findall(r"[A-Za-z0-9]{3,}", rendered))
+    return [wd for wd in re.findall(r"[A-Za-z0-9]{3,}", src) if wd not in have]
+
+
 PRE_RE = re.compile(r'^<div><p class="pre">(.*?)</p>', re.S)
 
 
@@ -1956,6 +1997,22 @@ def real_oracle(ctx: Ctx, w: World, fmt: str, pt: int, x: int, doc: str, td: int
     if any(t["op"] == "s" and t["obj"] == x and t["raised"] is None and t["tok"] == "sum=broken" for t in trace) and hold not in errs_now:
         fail("summary:render-failure-unreported", "the summary's renderer failed ('Broken description' is shown in the listings), the body "
              "rendered, and nothing was reported against the object (format_summary calls safe_to_stan with report=False)")
+    if rec is not None and fmt in "rgn":
+        stored = [e.descr() for e in rec[2]]
+        for level, text in w.handed.get(x, []):
+            if text in stored:
+                stored.remove(text)
+            else:
+                fail("rst:docutils-message-not-reported:level%d" % level, "docutils handed pydoctor's reader a system message (level %d: %s) "
+                     "that is not among the errors stored for the object, so it is never reported" % (level, text[:70]))
+                break
+    if fmt == "e" and rec is not None and rec[0] == "ret" and rec[2] and shown and not shown[-1]["flat_err"]:
+        # the epytext parser only WARNED: the page must still have every word of the source
+        lost = epytext_words_lost(doc, safe_text(shown[-1]["stan"]) or "")
+        if lost:
+            fail("epytext:warning:text-lost", "the epytext parser recorded only warnings (%s) and rendered the docstring, but words of the "
+                 "source are not on the page: %s" % (rec[2][0].descr()[:40], " ".join(lost[:6])))
+
     def field_has_text(body) -> bool:
         from pydoctor import node2stan
         try:
